@@ -1,8 +1,271 @@
-(** C01 — winding number and containment. Statements only. (under construction) *)
-From Coq Require Import ZArith Reals List Bool.
-From KV Require Import Scalar RInst Geom Curves Path Solvers Winding.
+(** C01 — winding number and containment are topologically correct.
+
+    Real instance of model/Winding.v (kurbo's ray cast run in exact arithmetic), plus facts about its
+    binary64 run. Statements only; proofs in proofs/C01_proofs.v and proofs/C01_float.v.
+
+    [winding_inner], [seg_winding], [path_winding], [path_contains] are the behaviour the property requires
+    (= the code with proposed_fixes/C01-*.diff applied); [..._pinned] is the code of the pinned tree, which the
+    [..._refuted] facts show to miscount. The per-piece theorems hold for both variants. *)
+From Coq Require Import ZArith Reals List Bool Floats.
+From KV Require Import Scalar RInst F64 Geom Curves Path Solvers Winding WindingSpec C01_proofs.
+From KV Require C01_float C01_order C01_float_order.
+Import ListNotations.
 Local Open Scope R_scope.
 
+(** ** 1. The per-piece ray cast is the classical half-open crossing rule *)
+
+(** On a line piece, for EVERY p: -1 (upward) / +1 (downward) iff ymin <= p.y < ymax and the abscissa
+    x0 + (p.y - y0)(x1 - x0)/(y1 - y0) of the edge's point on the row of p is <= p.x; 0 otherwise.
+    (The code compares [(a p.x + b p.y - c) * sign <= 0]: the crossing itself counts.) *)
+Theorem C01_line_piece_crossing : forall (fx : bool) (l : Line R) (p : Point R),
+  winding_inner_gen fx (SegLine l) p = edge_crossing (l0 l) (l1 l) p.
+Proof. exact line_piece_crossing_gen. Qed.
+
+(** the two x-extent early outs are consistent with that rule: the crossing abscissa lies between the end abscissae *)
+Theorem C01_line_early_outs_consistent : forall s e p : Point R, py s <> py e ->
+  Rmin (py s) (py e) <= py p <= Rmax (py s) (py e) ->
+  Rmin (px s) (px e) <= edge_x_at s e p <= Rmax (px s) (px e).
+Proof. exact edge_x_at_between. Qed.
+
+(** A quadratic piece that is monotone in y (y injective on [0,1]) and whose row range contains the row of p:
+    the crossing parameter t decides, by x(t) <= p.x. Guard: the y-polynomial has degree 2 (the solver divides
+    by its leading coefficient; binary64 reaches a separate linear branch when the quotient overflows).
+    Uses C15's theorem that the model of [solve_quadratic] returns exactly the real roots. *)
+Theorem C01_quad_piece_crossing : forall (fx : bool) (q : QuadBez R) (p : Point R) (t : R),
+  py (q2 q) - 2 * py (q1 q) + py (q0 q) <> 0 ->
+  y_injective (quad_eval q) -> 0 <= t <= 1 -> py (quad_eval q t) = py p ->
+  Rmin (py (q0 q)) (py (q2 q)) <= py p < Rmax (py (q0 q)) (py (q2 q)) ->
+  winding_inner_gen fx (SegQuad q) p =
+    if Rle_dec (px (quad_eval q t)) (px p) then dir_sign (py (q0 q)) (py (q2 q)) else 0%Z.
+Proof. exact quad_piece_crossing. Qed.
+
+(** The same for cubic pieces, given the named hypothesis that the cubic solver returns exactly the real
+    roots whenever the leading coefficient is non-zero. *)
+Theorem C01_cubic_piece_crossing_partial : forall (fx : bool) (c : CubicBez R) (p : Point R) (t : R),
+  cubic_solver_exact ->
+  py (c3 c) - 3 * py (c2 c) + 3 * py (c1 c) - py (c0 c) <> 0 ->
+  y_injective (cubic_eval c) -> 0 <= t <= 1 -> py (cubic_eval c t) = py p ->
+  Rmin (py (c0 c)) (py (c3 c)) <= py p < Rmax (py (c0 c)) (py (c3 c)) ->
+  winding_inner_gen fx (SegCubic c) p =
+    if Rle_dec (px (cubic_eval c t)) (px p) then dir_sign (py (c0 c)) (py (c3 c)) else 0%Z.
+Proof. exact cubic_piece_crossing_partial. Qed.
+
+(** C15 proves that hypothesis for the real run of model/Solvers.v ([solve_cubic_exact]); what stays open
+    for cubics is rounding: the binary64 solver loses the roots when the leading coefficient is of rounding
+    size (degree-raised quadratics; known finding, see docs/C01.md). *)
+Theorem C01_cubic_solver_hypothesis_holds_for_the_model : cubic_solver_exact.
+Proof. exact cubic_solver_exact_C15. Qed.
+
+(** a piece that spans the row of p meets it (intermediate values): together with the two theorems above this
+    determines the contribution of every monotone piece, and shows that the "no root in [0,1]" exit of the
+    loop over the solver's roots is unreachable in exact arithmetic *)
+Theorem C01_piece_row_has_crossing : forall (s : PathSeg R) (p : Point R),
+  Rmin (py (seg_start s)) (py (seg_end s)) <= py p <= Rmax (py (seg_start s)) (py (seg_end s)) ->
+  exists t, 0 <= t <= 1 /\ py (seg_eval s t) = py p.
+Proof. exact piece_row_has_crossing. Qed.
+
+(** a piece whose row range does not contain the row of p contributes nothing *)
+Theorem C01_piece_out_of_rows : forall (fx : bool) (s : PathSeg R) (p : Point R),
+  (py p < Rmin (py (seg_start s)) (py (seg_end s)) \/ Rmax (py (seg_start s)) (py (seg_end s)) <= py p) ->
+  winding_inner_gen fx s p = 0%Z.
+Proof. exact piece_out_of_rows. Qed.
+
+(** ** 2. Telescoping: a closed chain of pieces about a point outside *)
+
+(** A piece (any kind, monotone or not) all of whose control points are on or left of the column of p
+    contributes above(start) - above(end), by comparisons only — whatever the row of p, in particular when
+    p.y equals the ordinate of a vertex, an end point or an extremum. *)
+Theorem C01_piece_right_of_all : forall (fx : bool) (s : PathSeg R) (p : Point R),
+  (forall c, In c (seg_ctrl s) -> px c <= px p) ->
+  winding_inner_gen fx s p = (above p (seg_start s) - above p (seg_end s))%Z.
+Proof. exact piece_right_of_all. Qed.
+
+(** Hence any closed chain of pieces whose consecutive end points are EQUAL VALUES sums to 0 about such a point.
+    (On the other side, p left of every control point, every piece contributes 0 by the first early out.) *)
+Theorem C01_closed_chain_outside_zero : forall (fx : bool) (ps : list (PathSeg R)) (p : Point R),
+  closed_chain ps -> right_of_all p ps -> sum_Z (map (fun s => winding_inner_gen fx s p) ps) = 0%Z.
+Proof. exact closed_chain_outside_right_zero. Qed.
+
+Theorem C01_chain_outside_left_zero : forall (fx : bool) (ps : list (PathSeg R)) (p : Point R),
+  left_of_all p ps -> sum_Z (map (fun s => winding_inner_gen fx s p) ps) = 0%Z.
+Proof. exact chain_outside_left_zero. Qed.
+
+(** The same on binary64 (no rounding is involved on this path through the code: only comparisons, min, max):
+    for the binary64 run of the model, every closed chain of pieces whose consecutive end points are the same
+    binary64 values sums to 0 about every finite point p with every control abscissa <= p.x — on every row,
+    vertex / end-point / extremum rows included. This is what the pinned tree's "-1 two units outside a
+    hexagon" contradicts (there the chain is broken: see [C01_pinned_line_piece_endpoint_refuted]). *)
+Theorem C01_closed_chain_outside_zero_f64 : forall (fx : bool) (ps : list (PathSeg float)) (p : Point float),
+  C01_float_order.fin (px p) -> C01_float_order.fin (py p) -> closed_chain ps ->
+  (forall s c, In s ps -> In c (C01_order.seg_ctrl_g s) ->
+     C01_float_order.fin (px c) /\ C01_float_order.fin (py c) /\ PrimFloat.leb (px c) (px p) = true) ->
+  sum_Z (map (fun s => winding_inner_gen fx s p) ps) = 0%Z.
+Proof. exact C01_float_order.closed_chain_outside_zero_f64. Qed.
+
+(** binary64, whole paths: every closed polygon [MoveTo v0; LineTo v1; ...; ClosePath] with finite coordinates,
+    every finite p with every vertex abscissa <= p.x: the binary64 run of the model returns winding 0 and "not
+    contained", on every row (a closing edge between vertices that are equal as numbers, e.g. +0 and -0, is
+    handled). The pinned model violates exactly this ([C01_pinned_vertex_row_refuted]). *)
+Theorem C01_polygon_outside_zero_f64 : forall (v0 : Point float) (vs : list (Point float)) (p : Point float),
+  C01_float_order.fin (px p) -> C01_float_order.fin (py p) ->
+  (forall v, In v (v0 :: vs) ->
+     C01_float_order.fin (px v) /\ C01_float_order.fin (py v) /\ PrimFloat.leb (px v) (px p) = true) ->
+  path_winding (C01_order.polygon_els_g v0 vs) p = Some 0%Z /\
+  path_contains (C01_order.polygon_els_g v0 vs) p = Some false.
+Proof. exact C01_float_order.polygon_outside_right_zero_f64. Qed.
+
+(** ** 5. The monotone pieces of a segment share their end points *)
+
+(** real instance: the pieces [extrema_ranges + subsegment] (and the required pieces, which keep a segment
+    without interior extrema as it is) form a chain from the segment's start to its end *)
+Theorem C01_pieces_share_endpoints : forall (fx : bool) (s : PathSeg R),
+  chain_from_to (seg_start s) (w_pieces_gen fx s) (seg_end s).
+Proof. exact pieces_share_endpoints. Qed.
+
+(** any scalar instance, binary64 included: consecutive sub-segments store the very same value [eval(t)] *)
+Theorem C01_pieces_consecutive_generic : forall (T : Type) (S : Scalar T) (s : PathSeg T),
+  chain_from_to (seg_eval s f0) (w_subpieces s) (seg_eval s f1).
+Proof. exact @subpieces_chain_generic. Qed.
+
+(** binary64, pinned tree: for a LINE the single piece [subsegment(0..1)] does not end at the stored end point
+    ([eval(1) = p0 + 1.0 * (p1 - p0)] rounds) — REFUTED by evaluation; the required pieces keep the line *)
+Theorem C01_pinned_line_piece_endpoint_refuted :
+  exists (l : Line float) (pc : PathSeg float), w_pieces_pinned (SegLine l) = [pc] /\
+    PrimFloat.eqb (py (seg_end pc)) (py (l1 l)) = false /\ w_pieces (SegLine l) = [SegLine l].
+Proof. exact C01_float.pinned_line_piece_endpoint_refuted. Qed.
+
+(** and that is why the pinned tree reports winding -1 (and [contains]) for a point two units outside a
+    regular hexagon, on the row of one of its vertices — reproduced inside Coq; the required model says 0 *)
+Theorem C01_pinned_vertex_row_refuted :
+  exists (els : list (PathEl float)) (p : Point float),
+    forallb (fun x => PrimFloat.ltb x (px p)) (C01_float.ctrl_abscissae els) = true /\
+    path_winding_pinned els p = Some (-1)%Z /\ path_contains_pinned els p = Some true /\
+    path_winding els p = Some 0%Z.
+Proof. exact C01_float.pinned_vertex_row_refuted. Qed.
+
+(** binary64, pinned tree: a monotone quadratic piece spanning the row of p (p.y = its lower end ordinate, the
+    row the half-open rule assigns to it) reports no crossing although p is far to the right of that end point:
+    the root t = 1 comes out of the solver as 1 + 2^-52. REFUTED; the required model counts it. *)
+Theorem C01_pinned_boundary_root_refuted :
+  exists (s : PathSeg float) (p : Point float),
+    winding_inner_pinned s p = 0%Z /\ winding_inner s p = 1%Z.
+Proof. exact C01_float.pinned_boundary_root_refuted. Qed.
+
+(** every piece the ray cast is applied to (both variants), for a line, a quadratic whose y-polynomial has degree 2
+    or a cubic whose y-polynomial has degree 3, is monotone in y — it meets the hypotheses of the per-piece
+    theorems — or is a single point, which contributes 0. (Quadratics: the split parameter is the zero of y';
+    cubics: the sorted roots of x' and y' from C15's quadratic solver theorem, and Rolle.) *)
+Theorem C01_pieces_monotone : forall (fx : bool) (s : PathSeg R), full_degree_y s ->
+  forall pc, In pc (w_pieces_gen fx s) -> regular_piece pc \/ seg_start pc = seg_end pc.
+Proof. exact pieces_monotone. Qed.
+
+Theorem C01_flat_piece_zero : forall (fx : bool) (s : PathSeg R) (p : Point R),
+  py (seg_start s) = py (seg_end s) -> winding_inner_gen fx s p = 0%Z.
+Proof. exact piece_flat_zero. Qed.
+
+(** with the chain property, the telescoping theorem applies to whole paths: closed chain of segments, p on or
+    right of every control column of the pieces *)
+Theorem C01_closed_path_outside_zero : forall (fx : bool) (segs : list (PathSeg R)) (p a : Point R),
+  chain_from_to a segs a -> right_of_all p (flat_map (w_pieces_gen fx) segs) ->
+  segs_winding_gen fx segs p = 0%Z.
+Proof. exact segs_outside_right_zero. Qed.
+
+(** ** 3. Closed polygons: the model's winding number is the classical half-open crossing number, for EVERY p
+       (vertex rows included; p on the path included, where the number is the rule's convention) *)
+Theorem C01_polygon_winding_crossing_number : forall (v0 : Point R) (vs : list (Point R)) (p : Point R),
+  path_winding (polygon_els v0 vs) p = Some (poly_crossing_number v0 vs p).
+Proof. exact polygon_winding_crossing_number. Qed.
+
+(** and it is 0 for every p outside the box of the vertices, on any side *)
+Theorem C01_polygon_outside_zero : forall (v0 : Point R) (vs : list (Point R)) (p : Point R),
+  (forall v, In v (v0 :: vs) -> px v <= px p) \/ (forall v, In v (v0 :: vs) -> px p < px v) \/
+  (forall v, In v (v0 :: vs) -> py p < py v) \/ (forall v, In v (v0 :: vs) -> py v <= py p) ->
+  path_winding (polygon_els v0 vs) p = Some 0%Z.
+Proof. exact polygon_outside_zero. Qed.
+
+(** ** 4. Metamorphic laws at the model level *)
+
+(** reversing a monotone piece negates its contribution (lines: every p, unconditionally) *)
+Theorem C01_winding_reverse : forall (fx : bool) (s : PathSeg R) (p : Point R),
+  regular_piece s -> winding_inner_gen fx (seg_reverse s) p = (- winding_inner_gen fx s p)%Z.
+Proof. exact winding_inner_reverse. Qed.
+
+(** hence reversing a chain of pieces (reverse each, reverse the order) negates the sum *)
+Theorem C01_chain_reverse : forall (fx : bool) (ps : list (PathSeg R)) (p : Point R),
+  (forall s, In s ps -> regular_piece s) ->
+  sum_Z (map (fun s => winding_inner_gen fx s p) (rev (map (fun s => seg_reverse s) ps))) =
+  (- sum_Z (map (fun s => winding_inner_gen fx s p) ps))%Z.
+Proof. exact chain_reverse_regular. Qed.
+
+(** reversing a closed polygon negates its winding number, for every p *)
+Theorem C01_polygon_winding_reverse : forall (v0 : Point R) (vs : list (Point R)) (p : Point R) (w : Z),
+  path_winding (polygon_els v0 vs) p = Some w -> path_winding (polygon_els v0 (rev vs)) p = Some (- w)%Z.
+Proof. exact polygon_winding_reverse. Qed.
+
+(** splitting a line piece at an interior parameter leaves the sum unchanged, for every p: the half-open rows
+    [y0, ym) and [ym, y1) partition [y0, y1) *)
+Theorem C01_winding_split_line : forall (fx : bool) (l : Line R) (p : Point R) (t : R), 0 < t < 1 ->
+  Z.add (winding_inner_gen fx (SegLine (line_subsegment l 0 t)) p)
+        (winding_inner_gen fx (SegLine (line_subsegment l t 1)) p)
+  = winding_inner_gen fx (SegLine l) p.
+Proof. exact winding_split_line. Qed.
+
+(** the same for every monotone piece (lines, and curved pieces under the guards of section 1), for every p:
+    the sub-segments [0,t] and [t,1] of a monotone piece are monotone, their rows partition the piece's rows,
+    and the crossing is the same point of the curve *)
+Theorem C01_winding_split : forall (fx : bool) (s : PathSeg R) (p : Point R) (t : R),
+  regular_piece s -> 0 < t < 1 ->
+  Z.add (winding_inner_gen fx (seg_subsegment s 0 t) p) (winding_inner_gen fx (seg_subsegment s t 1) p)
+  = winding_inner_gen fx s p.
+Proof. exact winding_split. Qed.
+
+(** one statement of the per-piece rule for the three kinds *)
+Theorem C01_piece_crossing : forall (fx : bool) (s : PathSeg R) (p : Point R) (t : R),
+  regular_piece s -> 0 <= t <= 1 -> py (seg_eval s t) = py p ->
+  Rmin (py (seg_start s)) (py (seg_end s)) <= py p < Rmax (py (seg_start s)) (py (seg_end s)) ->
+  winding_inner_gen fx s p =
+    if Rle_dec (px (seg_eval s t)) (px p) then dir_sign (py (seg_start s)) (py (seg_end s)) else 0%Z.
+Proof. exact piece_crossing. Qed.
+
+(** containment is "winding number non-zero" *)
 Theorem C01_contains_iff_nonzero : forall (els : list (PathEl R)) (p : Point R) (w : Z),
   path_winding els p = Some w -> path_contains els p = Some (negb (w =? 0)%Z).
-Proof. intros els p w Hw. unfold path_contains, path_contains_gen. fold (path_winding els p). rewrite Hw. reflexivity. Qed.
+Proof. exact contains_iff_nonzero. Qed.
+
+(** ** Non-vacuity *)
+
+(* the unit square, counter-clockwise (positive signed area), about its centre: +1 *)
+Example C01_ex_square :
+  path_winding (polygon_els (mkPoint 0 0) [mkPoint 1 0; mkPoint 1 1; mkPoint 0 1]) (mkPoint (/ 2) (/ 2)) = Some 1%Z.
+Proof. exact ex_square. Qed.
+(* ... and about a point on the row of two of its vertices, outside: 0; reversed: -1 *)
+Example C01_ex_square_vertex_row :
+  path_winding (polygon_els (mkPoint 0 0) [mkPoint 1 0; mkPoint 1 1; mkPoint 0 1]) (mkPoint 3 1) = Some 0%Z.
+Proof. exact ex_square_vertex_row. Qed.
+Example C01_ex_square_reversed :
+  path_winding (polygon_els (mkPoint 0 0) (rev [mkPoint 1 0; mkPoint 1 1; mkPoint 0 1])) (mkPoint (/ 2) (/ 2)) = Some (-1)%Z.
+Proof. exact ex_square_reversed. Qed.
+(* a quadratic piece meeting the hypotheses of [C01_quad_piece_crossing] *)
+Example C01_ex_quad_piece :
+  let q := mkQuad (mkPoint 0 0) (mkPoint 1 1) (mkPoint 0 3) in
+  regular_piece (SegQuad q) /\
+  winding_inner (SegQuad q) (mkPoint 2 (5 / 4)) = (-1)%Z /\ winding_inner (SegQuad q) (mkPoint (/ 4) (5 / 4)) = 0%Z.
+Proof. exact ex_quad_piece. Qed.
+(* a closed chain with a curved piece and a point on an end-point row to its right *)
+Example C01_ex_closed_chain :
+  let ps := [SegQuad (mkQuad (mkPoint 0 0) (mkPoint 1 1) (mkPoint 0 3)); SegLine (mkLine (mkPoint 0 3) (mkPoint 0 0))] in
+  closed_chain ps /\ right_of_all (mkPoint 5 3) ps.
+Proof. exact ex_closed_chain. Qed.
+
+(** ** The full property (NOT proved): for every closed path and every point off the path the ray cast equals
+    the topological winding number (1/2pi) * sum over segments of the integral of d(theta); an affine map
+    multiplies it by the sign of its determinant. Proved above: the polygon case as the classical crossing number
+    (whose equality with the angle integral is the textbook argument, not formalised here), the per-piece
+    rule for monotone curved pieces in exact arithmetic, and the outside/reversal/splitting consequences.
+    Missing for curved paths: (i) the degenerate degrees (y-polynomial of lower degree than the segment's kind: the
+    real-number run of the solver models is meaningless there; binary64 takes the solvers' other branches), (ii) the crossing count of a monotone piece equals its change of argument across
+    the cut ray (a lifting argument with [atan2], per piece), (iii) rounding. *)
+Definition C01_full_statement : Prop :=
+  forall (els : list (PathEl R)) (segs : list (PathSeg R)) (a p : Point R),
+    segments els = Some segs -> chain_from_to a segs a -> (forall s, In s segs -> off_seg s p) ->
+    exists w : Z, path_winding els p = Some w /\ IZR w = topological_winding segs p.
